@@ -16,12 +16,14 @@ func init() {
 		ID:          "C08",
 		Explanation: "Decides the clause 'if eq reports two values equal they hash identically' as an agreement between sibling implementations, type by type: (EH-PAIR) every type with a Hash method also has Equal, the receiver fields read by Hash are a subset of those Equal compares (whole-value == counts as all fields), and an address hash is only paired with identity equality; (EH-CASE) inside vals.Hash the float64 case normalises the sign of zero before taking the bit pattern (== identifies +0 and -0), the map and field-map hashers combine entries with the same commutative operator, initial value and per-entry function (a field map can be eq to a map, and iteration order of eq maps may differ), File is hashed by the same accessor eq compares; (EH-ORDER) the interface cases of vals.Equal and vals.Hash appear in an order that cannot send one value to a structural equality but a different hasher. It does not decide that the hash map honours hashes (C07).",
 		NotCovered:  "quality of hashes; has-key/assoc behaviour of the map itself (C07)",
-		Rules:       []string{"EH-PAIR", "EH-CASE", "EH-ORDER"},
-		Patterns:    []string{"./pkg/eval/...", "./pkg/ui", "./pkg/edit"},
-		Run:         runC08,
-		MinCounts:   map[string]int{"EH-PAIR": 6, "EH-CASE": 4},
+		Rules:       []string{"EH-PAIR", "EH-CASE", "EH-ORDER", "KEY-STABLE: vals.Hash and vals.Equal read no state of a value that a later operation can change (the descriptor of a file changes on close)", "COLLISION-HASH: a collision node of the hash trie is labelled with an existing collision node's hash, or built on the equal edge of a comparison of the two keys' hashes"},
+		Patterns:    []string{"./pkg/eval/...", "./pkg/ui", "./pkg/edit", "./pkg/persistent/hashmap"},
+		Run:         func(p *core.Program, r *core.Report) { runC08(p, r); runKeyStable(p, r); runCollisionHash(p, r) },
+		MinCounts:   map[string]int{"EH-PAIR": 6, "EH-CASE": 4, "KEY-STABLE": 2, "COLLISION-HASH": 3},
 		Trusted:     trustedBase,
 		Controls: []core.Control{
+			{Name: "collision-node-for-different-hashes-at-the-last-level", Rule: "COLLISION-HASH", File: "pkg/persistent/hashmap/hashmap.go", Old: "\tif h1 == h2 {\n\t\treturn &collisionNode{h1, []mapEntry{{k1, v1}, {k2, v2}}}", New: "\tif h1 == h2 || shift >= 30 {\n\t\treturn &collisionNode{h1, []mapEntry{{k1, v1}, {k2, v2}}}", Fire: true, Want: "createNode"},
+			{Name: "benign-collision-test-inverted", Rule: "COLLISION-HASH", File: "pkg/persistent/hashmap/hashmap.go", Old: "\tif h1 == h2 {\n\t\treturn &collisionNode{h1, []mapEntry{{k1, v1}, {k2, v2}}}\n\t}\n\tn, _ := emptyBitmapNode.assoc(shift, h1, k1, v1, h, eq)\n\tn, _ = n.assoc(shift, h2, k2, v2, h, eq)\n\treturn n", New: "\tif h1 != h2 {\n\t\tn, _ := emptyBitmapNode.assoc(shift, h1, k1, v1, h, eq)\n\t\tn, _ = n.assoc(shift, h2, k2, v2, h, eq)\n\t\treturn n\n\t}\n\treturn &collisionNode{h2, []mapEntry{{k1, v1}, {k2, v2}}}", Fire: false},
 			{Name: "eq-treats-nans-as-equal-hash-does-not", Rule: "EH-CASE", File: "pkg/eval/vals/equal.go", Old: "\tcase float64:\n\t\treturn x == y\n\tcase string:", New: "\tcase float64:\n\t\tif y, ok := y.(float64); ok {\n\t\t\treturn compareFloat(x, y) == CmpEqual\n\t\t}\n\t\treturn false\n\tcase string:", Fire: true, Want: "NaN", Patterns: []string{"./pkg/eval/vals"}},
 			{Name: "revert-fix-float-zero-hash", Rule: "EH-CASE", File: "pkg/eval/vals/hash.go", Old: "\t\tif v == 0 {\n\t\t\t// +0.0 and -0.0 are equal, so they must have the same hash.\n\t\t\tv = 0\n\t\t}\n", New: "", Fire: true, Quick: true, Patterns: []string{"./pkg/eval/vals"}},
 			{Name: "fieldmap-hash-order-dependent", Rule: "EH-CASE", File: "pkg/eval/vals/hash.go", Old: "\tvar h uint32\n\tfor i, key := range keys {\n\t\th += hash.DJB(Hash(key), Hash(value.Field(i).Interface()))", New: "\th := hash.DJBInit\n\tfor i, key := range keys {\n\t\th = hash.DJBCombine(h, hash.DJB(Hash(key), Hash(value.Field(i).Interface())))", Fire: true, Patterns: []string{"./pkg/eval/vals"}},
